@@ -63,6 +63,35 @@ def bfs_levels(initkey, alpha, depth):
     return levels, {C.digest(c) for c in seen}
 
 
+def _watchdog(pool):
+    """multiprocessing.Pool silently replaces a worker that died (e.g. killed for lack of memory) and never delivers its
+    task, which would hang the sweep. Turn that into a harness error (exit 2): never a hang, never a disguised pass."""
+    import os
+    import sys
+    import threading
+    import time
+
+    stop = threading.Event()
+    if pool.pool is None:
+        return stop
+    pids = {p.pid for p in pool.pool._pool}
+
+    def loop():
+        while not stop.wait(5.0):
+            try:
+                now = {p.pid for p in pool.pool._pool}
+            except Exception:  # noqa
+                return
+            if now != pids and not stop.is_set():
+                print("HARNESS-ERROR property=C16: a pool worker died (out of memory?); its task is lost, results would be incomplete")
+                sys.stdout.flush()
+                time.sleep(0.2)
+                os._exit(2)
+
+    threading.Thread(target=loop, daemon=True).start()
+    return stop
+
+
 def _rot(items, k, sd):
     return [x for i, x in enumerate(items) if (i + sd) % k == 0]
 
@@ -179,6 +208,7 @@ def run(tier, rep):
 
     agg = {}
     with Pool() as pool:
+        stop = _watchdog(pool)
         for res in pool.imap(MOD, "dispatch", tasks):
             tag = res["tag"]
             a = agg.setdefault(tag, dict(cnt={}, succ=set(), by_kind={}))
@@ -188,6 +218,7 @@ def run(tier, rep):
                 a["by_kind"][k] = a["by_kind"].get(k, 0) + v
             a["succ"] |= res.get("succ", set())
             findings.merge(res["findings"])
+        stop.set()
 
     # coverage ------------------------------------------------------------------------------------------
     for tag, info in fam_info.items():
